@@ -27,6 +27,8 @@ func runC20(e *Engine, r *Report, tier string) {
 	r.Rule("R2", "panic-capable sites in stateless validation are discharged", 10, "sites in the validation closure")
 	r.Rule("R3", "precompile arguments only through ParseMethodArgs -> Validate()", 20, "implementers of contract.PrecompileMethod")
 	r.Rule("R4", "ante handler recovers panics", 1, "")
+	r.Rule("R5", "parallel arrays of a decoded message / argument struct are indexed together only if its validator establishes equal lengths unconditionally", 1, "index sites bounded by another field's length")
+	e.c20ParallelArrays(r)
 
 	// ---------- R1 ----------
 	var checker *ssa.Function
@@ -537,4 +539,144 @@ func isMsgTypeURLCall(c *ssa.Call) bool {
 		}
 	}
 	return false
+}
+
+// ---------------------------------------------------------------------------------------------------------------------
+// R5: parallel arrays
+// ---------------------------------------------------------------------------------------------------------------------
+
+// fieldOfBase: v is a load of base.<field>; returns (base value, field name, struct type).
+func fieldOfBase(v ssa.Value) (ssa.Value, string, types.Type, bool) {
+	v = stripConv(v)
+	switch x := v.(type) {
+	case *ssa.UnOp:
+		if fa, ok := x.X.(*ssa.FieldAddr); ok && x.Op == token.MUL {
+			n, st, _ := fieldName(fa)
+			return fa.X, n, st, true
+		}
+	case *ssa.Field:
+		n, st, _ := fieldName(x)
+		return x.X, n, st, true
+	}
+	return nil, "", nil, false
+}
+
+func lenOfField(v ssa.Value) (ssa.Value, string, bool) {
+	c, ok := stripConv(v).(*ssa.Call)
+	if !ok {
+		return nil, "", false
+	}
+	b, ok := c.Call.Value.(*ssa.Builtin)
+	if !ok || b.Name() != "len" || len(c.Call.Args) != 1 {
+		return nil, "", false
+	}
+	base, f, _, ok := fieldOfBase(c.Call.Args[0])
+	return base, f, ok
+}
+
+func (e *Engine) c20ParallelArrays(r *Report) {
+	type site struct {
+		fn       *ssa.Function
+		in       ssa.Instruction
+		st       types.Type
+		idx, bnd string
+	}
+	var sites []site
+	for _, fn := range e.Funcs {
+		if isAuxPkg(fnPkgPath(fn)) || strings.HasSuffix(fn.Pkg.Pkg.Path(), "/mock") {
+			continue
+		}
+		allInstrs(fn, func(in ssa.Instruction) {
+			var X, I ssa.Value
+			switch t := in.(type) {
+			case *ssa.IndexAddr:
+				X, I = t.X, t.Index
+			case *ssa.Index:
+				X, I = t.X, t.Index
+			default:
+				return
+			}
+			base, f1, st, ok := fieldOfBase(X)
+			if !ok {
+				return
+			}
+			for _, g := range GuardsOf(in) {
+				bo, ok := g.Cond.(*ssa.BinOp)
+				if !ok || !g.Pol || bo.Op != token.LSS || bo.X != I {
+					continue
+				}
+				b2, f2, ok := lenOfField(bo.Y)
+				if !ok || f2 == f1 {
+					continue
+				}
+				if b2 == base || vkey(b2, 0) == vkey(base, 0) {
+					sites = append(sites, site{fn, in, st, f1, f2})
+				}
+			}
+		})
+	}
+	if len(sites) == 0 {
+		r.Fail("R5", "parallel-index-sites", "", "UNRESOLVED-ANCHOR: no index site bounded by the length of a sibling field was found")
+		return
+	}
+	seen := map[string]bool{}
+	for _, s := range sites {
+		tn := namedTypeName(s.st)
+		ck := ShortPkg(tn) + " " + s.idx + "[i] for i < len(" + s.bnd + ") in " + e.FnKey(s.fn)
+		if seen[ck] {
+			continue
+		}
+		seen[ck] = true
+		named, _ := s.st.(*types.Named)
+		if named == nil {
+			r.Undecided("R5", ck, e.InstrPos(s.in), "indexed struct is not a named type")
+			continue
+		}
+		how := ""
+		for _, T := range []types.Type{named, types.NewPointer(named)} {
+			for _, mn := range []string{"Validate", "ValidateBasic", "validateBasic"} {
+				m := e.MethodOf(T, mn)
+				if m == nil || how != "" {
+					continue
+				}
+				for _, b := range m.Blocks {
+					iff, ok := b.Instrs[len(b.Instrs)-1].(*ssa.If)
+					if !ok {
+						continue
+					}
+					bo, ok := iff.Cond.(*ssa.BinOp)
+					if !ok || (bo.Op != token.NEQ && bo.Op != token.EQL) {
+						continue
+					}
+					_, fa, ok1 := lenOfField(bo.X)
+					_, fb, ok2 := lenOfField(bo.Y)
+					if !ok1 || !ok2 || !((fa == s.idx && fb == s.bnd) || (fa == s.bnd && fb == s.idx)) {
+						continue
+					}
+					eqSucc := b.Succs[0]
+					if bo.Op == token.NEQ {
+						eqSucc = b.Succs[1]
+					}
+					if !BranchFailsClean(iff, bo.Op == token.NEQ, nil) {
+						continue
+					}
+					all := true
+					for _, ret := range SuccessReturns(m) {
+						rb := ret.Block()
+						if !((rb == eqSucc || eqSucc.Dominates(rb)) && edgeDominates(b, eqSucc, rb)) {
+							all = false
+						}
+					}
+					if all {
+						how = mn
+					}
+				}
+			}
+		}
+		if how != "" {
+			r.Ok("R5", ck, e.InstrPos(s.in), how+"() returns an error unless len("+s.idx+") == len("+s.bnd+"), on every path")
+		} else {
+			r.Fail("R5", ck, e.InstrPos(s.in), "element i of "+s.idx+" is read for every i below len("+s.bnd+"), but the type's validator does not establish len("+s.idx+") == len("+s.bnd+") on every accepting path: a decoded value with a shorter "+s.idx+" passes validation and the index panics")
+		}
+	}
 }
